@@ -125,10 +125,14 @@ impl<H: Host> Emulator<H> {
     }
 
     pub fn load_snapshot(&mut self, snapshot: Snapshot<impl SnapshotAsset>) -> Result<()> {
-        match snapshot {
+        let result = match snapshot {
             Snapshot::Sna(asset) => snapshot::sna::load(self, asset),
             Snapshot::Szx(asset) => snapshot::szx::load(self, asset),
-        }
+        };
+        // RAM may have been partially overwritten even if loading failed,
+        // so screen must be synchronized with the memory in any case
+        self.controller.refresh_memory_dependent_devices();
+        result
     }
 
     pub fn save_snapshot<R>(&mut self, recorder: SnapshotRecorder<R>) -> Result<()>
@@ -180,11 +184,13 @@ impl<H: Host> Emulator<H> {
     }
 
     pub fn load_screen(&mut self, screen: Screen<impl ScreenAsset>) -> Result<()> {
-        match screen {
-            Screen::Scr(asset) => screenshot::scr::load(self, asset)?,
+        let result = match screen {
+            Screen::Scr(asset) => screenshot::scr::load(self, asset),
         };
-
-        Ok(())
+        // RAM may have been partially overwritten even if loading failed,
+        // so screen must be synchronized with the memory in any case
+        self.controller.refresh_memory_dependent_devices();
+        result
     }
 
     pub fn play_tape(&mut self) {
@@ -288,6 +294,8 @@ impl<H: Host> Emulator<H> {
                 }
             }
         }
+        // Poke may change screen memory
+        self.controller.refresh_memory_dependent_devices();
     }
 
     /// Perform emulatio up to `emulation_limit` duration, returns actual elapsed duration
